@@ -15,6 +15,8 @@ func init() {
 			{"getClient", f, "upstream.getClient"},
 			{"createClient", f, "upstream.createClient"},
 			{"removeClient", f, "upstream.removeClient"},
+			{"removeEndedClient", f, "upstream.removeEndedClient"},
+			{"resetAllClients", f, "upstream.resetAllClients"},
 			{"newClient", f, "newClient"},
 			{"makeRequest", f, "upstream.MakeRequest"},
 			{"makeRequestToHost", f, "upstream.MakeRequestToHost"},
